@@ -387,7 +387,7 @@ def run_check(pid, tier, seed, assumptions):
         st = stats_of(tpath)
         stats[bname] = st
         total, fails = vlib.validate_trace(pid, "OnChainTrace", "OnChainTrace.cfg", tpath, timeout=3000, tag=bname,
-                                           max_failures=25 if thorough else 8)
+                                           max_failures=80 if thorough else 20)
         total_events += total
         if not fails:
             good_traces.append(tpath)
